@@ -83,6 +83,9 @@ def run(ctx):
     for i in range(ctx.budget(450, 30000)):
         r = rng.fork(i)
         text, lay, groups = descs.structured(r)
+        if r.chance(1, 5) and '\n' in text:
+            # the same description with Windows / old-Mac line ends
+            text = text.replace('\n', r.choice(['\r\n', '\r']))
         n = safely(rep, 'layout', check, text, lay, groups) or 0
         rep.count()
         if n >= 2:
